@@ -218,7 +218,7 @@ func Run(c string) string {
 			return "err parse"
 		}
 		return "ok " + EncScript(t)
-	case f[0] == "load" && len(f) == 2:
+	case (f[0] == "load" && len(f) == 2) || (f[0] == "loadx" && len(f) == 3):
 		src := string(lib.ParseBytes(f[1]))
 		t, err := parse.String(src)
 		if err == nil && hugeShift(t) {
@@ -479,7 +479,7 @@ func OracleC03(c, res string) string {
 		return oracleParseHist(c, res)
 	case "large":
 		return OracleLarge(c, res)
-	case "parse", "parsex", "load":
+	case "parse", "parsex", "load", "loadx":
 		tree, accepted := treeOfResult(r)
 		if msg := checkGrammar(string(lib.ParseBytes(f[1])), accepted, tree); msg != "" {
 			return msg
@@ -494,7 +494,24 @@ func OracleC03(c, res string) string {
 		if res != "ok "+f[2] {
 			return "text does not parse to the tree the grammar assigns: want " + f[2]
 		}
-	case "load":
+	case "load", "loadx":
+		if f[0] == "loadx" {
+			// the generator states the verdict of the semantics; the oracle's interpreter must agree with it
+			t, ok := RefParse(string(lib.ParseBytes(f[1])))
+			if !ok {
+				return "generator: loadx text is outside the grammar"
+			}
+			_, _, rej := Interp(t)
+			if rej == "" {
+				rej = "accept"
+			}
+			if rej != f[2] {
+				return "oracle interpreter says " + rej + ", the generator intended " + f[2]
+			}
+			if (f[2] == "accept") != (r[0] == "ok") {
+				return "script with intended verdict " + f[2] + " (name resolution order) got: " + r[0] + " " + strings.Join(r[1:2], "")
+			}
+		}
 		if res == "err parse" {
 			return ""
 		}
